@@ -87,8 +87,17 @@ class SpecMixin:
         envs = self.snapshot_envs()
         n = seq.length
         seq_c = seq.copy()
+        unit, old_envs = self.unit, self.old_envs
 
         def body(c):
+            saved_unit, saved_old = self.unit, self.old_envs
+            self.unit, self.old_envs = unit, old_envs
+            try:
+                return body0(c)
+            finally:
+                self.unit, self.old_envs = saved_unit, saved_old
+
+        def body0(c):
             def run():
                 self.envs.append({})
                 try:
@@ -191,6 +200,9 @@ class SpecMixin:
             args = [self.eval(a) for a in n.args[1:]]
             kwargs = {k.arg: self.eval(k.value) for k in n.keywords}
             return self.unit.call_callee(self, fname, spec, args, kwargs, n, pure=True)
+        if name == "wit":
+            # witness (ghost / local) of the last call of a callee that was used by contract
+            return self.callee_envs[n.args[0].value][n.args[1].value]
         if name == "isnone":
             v = self.eval(n.args[0])
             return self.eq(v, None)
